@@ -448,7 +448,12 @@ func runC20(r *Run) {
 						}
 					}
 				}
-				report(fn, instrPos(c), "append onto local buffer "+exprCanon(base), "the append may outgrow its stack scratch buffer and allocate for large inputs")
+				what := "append onto local buffer " + exprCanon(base)
+				if sc, okC := scratchCapOf(base, 0, map[ssa.Value]bool{}); okC {
+					// the capacity is part of the site: a reviewed finding is about a scratch of that very size
+					what += fmt.Sprintf(" (capacity %d)", sc)
+				}
+				report(fn, instrPos(c), what, "the append may outgrow its stack scratch buffer and allocate for large inputs")
 				return
 			}
 			if c.Call.IsInvoke() && c.Call.Method.Name() == "Sum" && len(c.Call.Args) == 1 {
@@ -458,7 +463,7 @@ func runC20(r *Run) {
 					return
 				}
 				// Sum into a caller-provided buffer: allocation depends on its spare capacity
-				if fnName(fn) == "(*hmac.hmac).Sum" || fn.Name() == "newHMAC" {
+				if fnName(fn) == "(*hmac.hmac).Sum" || fn == p.Fn("newHMAC") {
 					rc.Instance(fnName(fn)+"|Sum(in)", true, map[string]string{"fn": fnName(fn), "site": "Sum(" + exprCanon(arg) + ")", "class": "writes into the caller's buffer (the caller's site is the one judged)"})
 					return
 				}
@@ -584,6 +589,9 @@ func runC20(r *Run) {
 
 	// the attribute list narrowed for a callback is restored on every exit: a list left narrowed has lost capacity and the next decode allocates (shared with C07)
 	r.Borrow("C07", map[string]string{"C07.restore": "C20.restore"})
+	// re-encoding re-adds the attributes into the list's own backing array (truncated, not replaced): a warm message is
+	// re-encoded without allocating (shared with C03)
+	r.Borrow("C03", map[string]string{"C03.encode": "C20.encode"})
 }
 
 // retainedBase: the append base derives from storage retained across calls (a field of the message,
@@ -1176,6 +1184,47 @@ func scratchCoveredByAdd(p *Prog, fn *ssa.Function, hm *ssa.Call) (string, bool)
 		return "", false
 	}
 	return fmt.Sprintf("summed behind grow(%s); the Add that follows on every success path ends the message at %s: %d >= %d bytes behind the scratch start belong to a buffer that has held the finished message once", start, final, room, digest), true
+}
+
+// scratchCapOf: the constant capacity of the local buffer an append chain (phis, reslices, appends) started from.
+func scratchCapOf(v ssa.Value, depth int, seen map[ssa.Value]bool) (int64, bool) {
+	if depth > 8 || v == nil {
+		return 0, false
+	}
+	if seen[v] {
+		return -1, true // loop-carried: decided by the other sources
+	}
+	seen[v] = true
+	if c, ok := constCap(v); ok {
+		return c, true
+	}
+	switch x := v.(type) {
+	case *ssa.Phi:
+		res, have := int64(-1), false
+		for _, e := range x.Edges {
+			c, ok := scratchCapOf(e, depth+1, seen)
+			if !ok {
+				return 0, false
+			}
+			if c < 0 {
+				continue
+			}
+			if have && c != res {
+				return 0, false
+			}
+			res, have = c, true
+		}
+		return res, have
+	case *ssa.Call:
+		if isBuiltinCall(x, "append") {
+			return scratchCapOf(x.Call.Args[0], depth+1, seen)
+		}
+	case *ssa.Slice:
+		if x.Max == nil {
+			return scratchCapOf(x.X, depth+1, seen)
+		}
+	}
+	return 0, false
 }
 
 func ownerName(p *Prog, fv *types.Var) string {
